@@ -56,6 +56,7 @@ type Decoder struct {
 	typList    []string
 	refList    []reflect.Value
 	clsDefList []ClassDef
+	depth      int // nesting level of the value being read
 }
 
 //NewDecoder new
@@ -78,6 +79,7 @@ func (d *Decoder) Reset(r ByteRuneReader) {
 	d.typList = make([]string, 0, 11)
 	d.clsDefList = make([]ClassDef, 0, 11)
 	d.refList = make([]reflect.Value, 0, 11)
+	d.depth = 0
 }
 
 //RegisterType register key/value type
@@ -164,6 +166,11 @@ func (d *Decoder) readDate(flag int32) (time.Time, error) {
 }
 
 func (d *Decoder) readStruct(flag int32) (interface{}, error) {
+	d.depth++
+	defer func() { d.depth-- }()
+	if d.depth > _maxDepth {
+		return nil, newCodecError("readStruct", "values nested deeper than %d levels", _maxDepth)
+	}
 	tag, err := getTag(d.reader, flag)
 	if err != nil {
 		return nil, tagReadError(err)
@@ -189,8 +196,17 @@ func (d *Decoder) readStruct(flag int32) (interface{}, error) {
 	}
 }
 
+// _maxDepth bounds how deeply values may nest in the input. The decoder recurses once per level; without a bound a
+// few megabytes of list headers exhaust the goroutine stack, which ends the process (no recover can stop that).
+const _maxDepth = 10000
+
 //ReadData read object
 func (d *Decoder) ReadData() (interface{}, error) {
+	d.depth++
+	defer func() { d.depth-- }()
+	if d.depth > _maxDepth {
+		return nil, newCodecError("ReadData", "values nested deeper than %d levels", _maxDepth)
+	}
 	tag, err := d.readTag()
 	if err != nil {
 		return nil, tagReadError(err)
